@@ -48,6 +48,8 @@ type Case struct {
 	// at every step the engine's pending requests must be a sub-multiset of the
 	// reference's, and equality is demanded once the engine has nothing pending.
 	Lenient bool `json:"lenient,omitempty"`
+	// Defs, when set, is run instead of parsing G (differential runs on a re-parsed model).
+	Defs *schema.Definitions `json:"-"`
 }
 
 const Watchdog = 8 * time.Second
@@ -280,6 +282,9 @@ func RunStepwise(prop string, c *Case, env *fw.Env, v *fw.V) *Result {
 		v.Inconclusive("parse", "generated XML does not parse: %v", err)
 		res.Aborted = true
 		return res
+	}
+	if c.Defs != nil {
+		defs = c.Defs
 	}
 	if c.Hooks > 0 {
 		perturb.Configure(c.Hooks, 200)
